@@ -59,6 +59,7 @@ pub fn run(ctx: &Ctx) -> i32 {
             for f in fronts {
                 one(case, f, ev);
             }
+            ev.count(&format!("family:{}", case.family));
             if case.index % 1499 == 0 {
                 ev.sample(case.describe());
             }
